@@ -42,6 +42,7 @@ type prPool struct {
 	GunFail, BindFail, SchedFail int
 	PanicInst, PanicShot         int
 	Fault, Shape, Ek             string
+	Long, Slow                   bool // Long: never ends by itself (unlimited schedule, 2^30 ammo); Slow: shots take milliseconds
 }
 
 type prPlan struct {
@@ -310,6 +311,15 @@ func (g *prGun) Bind(_ core.Aggregator, deps core.GunDeps) error {
 func (g *prGun) Shoot(core.Ammo) {
 	atomic.AddInt32(&g.r.active, 1)
 	defer atomic.AddInt32(&g.r.active, -1)
+	if g.pl.Long {
+		// a pool that shoots until its context is done: thousands of shots, not logged one by one (PoolRun.tla:
+		// InstShoot of a long pool is a silent step); throttled so that an abandoned run does not burn a core
+		time.Sleep(200 * time.Microsecond)
+		return
+	}
+	if g.pl.Slow {
+		time.Sleep(3 * time.Millisecond)
+	}
 	g.shots++
 	boom := g.pl.PanicInst == g.inst && g.pl.PanicShot == g.shots
 	g.r.emit(prEv{Ev: "Shoot", P: g.p, N: g.inst, Flag: boom})
@@ -389,6 +399,9 @@ func (f *prFactory) NewSched() (core.Schedule, error) {
 		return nil, f.pl.errVal(prErrSched, nil)
 	}
 	f.r.emit(prEv{Ev: "NewSchedOk", P: f.p, N: n, Cls: "ok"})
+	if f.pl.Long {
+		return schedule.NewUnlimited(time.Hour), nil
+	}
 	return schedule.NewOnce(int64(f.pl.T)), nil
 }
 
@@ -480,6 +493,28 @@ func prRunOne(w *vt.Writer, id int, plan prPlan, seed int64, cancelAt int, watch
 		}
 	}
 
+	// a plan with a pool that never ends by itself and a caller cancel: the cancel must happen
+	anyLong := false
+	for _, pl := range plan.Pools {
+		anyLong = anyLong || pl.Long
+	}
+	if plan.Cancel && anyLong {
+		t := time.AfterFunc(time.Duration(5+r.rng.Intn(30))*time.Millisecond, func() {
+			r.mu.Lock()
+			do := !r.cancelled && !r.returned
+			if do {
+				r.cancelled, r.cancelT = true, time.Now()
+				w.Emit(prEv{Run: id, Ev: "Cancel"})
+				r.count++
+			}
+			r.mu.Unlock()
+			if do {
+				cancel()
+			}
+		})
+		defer t.Stop()
+	}
+
 	runDone := make(chan struct{})
 	go func() {
 		err := eng.Run(ctx)
@@ -540,7 +575,13 @@ func prDecodePlans(path string) []prPlan {
 				GunFail: vt.Int(pm["gunFail"]), BindFail: vt.Int(pm["bindFail"]), SchedFail: vt.Int(pm["schedFail"]),
 				PanicInst: vt.Int(pm["panicInst"]), PanicShot: vt.Int(pm["panicShot"]),
 				Fault: vt.Str(pm["fault"]), Shape: vt.Str(pm["shape"]), Ek: vt.Str(pm["ek"]),
+				Long: vt.Bool(pm["long"]), Slow: vt.Bool(pm["slow"]),
 			})
+		}
+		for i := range pl.Pools {
+			if pl.Pools[i].Long {
+				pl.Pools[i].Ammo = 1 << 30
+			}
 		}
 		out = append(out, pl)
 	}
